@@ -106,6 +106,16 @@ impl Monitor for C18 {
                 ctx.check(&Case::new(Ev::Num, "from-i64", "", Val::NI(x)), &|c, st| self.judge(c, st));
             }
         }
+        // the same conversions end to end: an integer literal, or an Integer placeholder, must come
+        // back as Integer of the same value; a literal with a point as the Float it denotes
+        let n3 = ctx.tier.pick(60_000u64, 1_000_000);
+        for i in 0..n3 {
+            if ctx.mine() {
+                let mut rng = ctx.rng("via-eval", i);
+                let x = if i % 3 == 0 { *rng.pick(&crate::gen::i64_pool()) } else { (rng.next() as i64) >> rng.below(64) };
+                ctx.check(&Case::new(Ev::Num, "via-eval", "", Val::NI(x)), &|c, st| self.judge(c, st));
+            }
+        }
         let n2 = ctx.tier.pick(100_000u64, 2_000_000);
         for i in 0..n2 {
             if ctx.mine() {
@@ -140,6 +150,23 @@ impl Monitor for C18 {
                     viol("wrong-conversion", format!("C18|number|wrong-conversion|{}", region), format!("Number::from({:?}) [bits {:016x}] = {} ; expected {}", x, x.to_bits(), got.show(), want.show()))
                 }
             }
+            Val::NI(x) if case.kind == "via-eval" => {
+                // literal (non-negative values) and placeholder routes
+                let mut routes: Vec<(String, Val)> = vec![("@".to_string(), Val::NI(x)), ("@+0".to_string(), Val::NI(x))];
+                if x >= 0 {
+                    routes.push((format!("{}", x), Val::NI(0)));
+                    routes.push((format!("0+{}", x), Val::NI(0)));
+                }
+                for (e, p) in routes {
+                    match sut::call(Ev::Num, &e, &p) {
+                        crate::val::Outcome::Ok(v) if v.same_bits(&Val::NI(x)) => {}
+                        crate::val::Outcome::Panic(..) | crate::val::Outcome::Budget(_) => return Verdict::Skip("panic-or-budget"),
+                        other => return viol("conversion-changes-value", "C18|number|conversion-changes-value|via-eval".into(), format!("eval_number({:?}) with @={} returned {} ; expected Integer({})", e, p.show(), other.show(), x)),
+                    }
+                }
+                st.inc("via_eval_confirmed");
+                pass(true)
+            }
             Val::NI(x) => {
                 let got = sut::number_from_i64(x);
                 if got.same_bits(&Val::NI(x)) {
@@ -159,6 +186,6 @@ impl Monitor for C18 {
         vec!["-0.0 is integral and equals 0: Integer(0) is expected (its sign is not a numeric value)"]
     }
     fn floors(&self, _t: Tier) -> Vec<(String, u64)> {
-        vec![("expected.integer".into(), 50_000), ("expected.float".into(), 50_000), ("i64_confirmed".into(), 10_000)]
+        vec![("via_eval_confirmed".into(), 20_000), ("expected.integer".into(), 50_000), ("expected.float".into(), 50_000), ("i64_confirmed".into(), 10_000)]
     }
 }
